@@ -208,6 +208,10 @@ def judge(calls, plan, rs, bits, faulty_call=None):
             if bits & bit and bool(f & bit) != v:
                 return where + ": device state '%s' differs from the effects that happened" % name
         ctxt = bool(f & F_CTXT)
+        # --- a successful open leaves BOTH channels opened (also when an earlier open failed half-way: the retry
+        #     must open what is still closed); everything after it presupposes that
+        if call == OPEN and r["res"] == 0 and (bits & F_COPEN) and (bits & F_SOPEN) and not (copen and sopen):
+            return where + ": open returned Ok but the %s channel is not opened" % ("control" if not copen else "stream")
         # --- failure: error returned, later steps not performed
         fails = sorted((j, cls) for (ci, j, cls) in plan if ci == i)
         reached = [(j, cls) for (j, cls) in fails if r["nops"] is not None and j < r["nops"]]
